@@ -192,6 +192,20 @@ func (w *World) Exec(op Op, ctx context.Context) {
 			val, err = c.P.RevSub(ctx, op.Tok)
 		case "reader":
 			val, err = c.P.ReadAll(ctx, op.Tok, readerSource(op))
+		case "readersub":
+			var rc <-chan int
+			rc, err = c.P.ReadSub(ctx, op.Tok, readerSource(op))
+			if err == nil && rc != nil {
+				var vs []int
+				for v := range rc {
+					vs = append(vs, v)
+				}
+				if len(vs) == 2 {
+					val = fmt.Sprintf("%d:%08x:", vs[0], uint32(vs[1]))
+				} else {
+					val = fmt.Sprintf("%v", vs)
+				}
+			}
 		case "reader-retry":
 			val, err = c.P.ReadAllRetry(ctx, op.Tok, readerSource(op))
 		case "notifyrev":
@@ -269,6 +283,9 @@ func (w *World) Exec(op Op, ctx context.Context) {
 		t.ReturnAt = e.S.Step()
 		t.ReturnT = e.S.Now()
 		t.Val, t.IVal, t.RetErr = val, ival, err
+		if err != nil {
+			t.RetErrText = err.Error()
+		}
 		t.mu.Unlock()
 		es := ""
 		if err != nil {
@@ -389,8 +406,15 @@ func (w *World) CheckOwnResults(oracle string, allowConnErr bool) {
 		t.mu.Lock()
 		ret, val, err := t.Returned, t.Val, t.RetErr
 		kind, size, wantErr, pnc := t.Kind, t.Size, t.Err, t.Panic
+		errText := t.RetErrText
 		t.mu.Unlock()
 		if !ret {
+			continue
+		}
+		if err != nil && err.Error() != errText {
+			// an error is a value handed to one caller: nothing that happens to other
+			// calls afterwards may change it
+			w.E.Violate(oracle, "tok=%d: the error this call returned has changed since: it was %q, it now reads %q (error object shared between calls)", t.ID, errText, err.Error())
 			continue
 		}
 		switch kind {
